@@ -27,6 +27,7 @@ const (
 type step struct {
 	kind  string // "entry" | "reset" (AuditLogHandler.ResetChain, what SIGUSR1 does) | "reboot" (FinalizeChain, then a new process appends to the same file)
 	entry entrySpec
+	t     time.Time // restarts: if set, the logical clock is moved here before the call (else the service entries follow 1 ms after the previous entry)
 }
 
 type logSpec struct {
@@ -39,6 +40,28 @@ type logSpec struct {
 	t0         time.Time // logical clock start (entries without their own time continue from the previous entry)
 	finalize   bool      // FinalizeChain at the end (deferred call in main); false = process killed
 	concurrent int       // >0: entries are logged by this many goroutines (order then decided by logrus' lock)
+	level      int       // logging.LogDebug (zero value: -d, every level is written) | LogVerbose (-v) | LogDiscard (the services' default: warnings and errors only)
+	observe    bool      // record which bytes of the file every step wrote (events); line meta is then built from that observation, not from construction
+	events     []prodEvent
+}
+
+// prodEvent: what one step of the history wrote into the file (observed: file size before and after the call).
+type prodEvent struct {
+	kind     string // "preamble" | "entry" | "reset" | "reboot" | "finalize"
+	step     int    // index into spec.steps; -1 preamble; len(spec.steps) the final FinalizeChain
+	from, to int    // byte range of the file
+}
+
+func levelName(l int) string {
+	switch l {
+	case logging.LogDebug:
+		return "debug"
+	case logging.LogVerbose:
+		return "verbose"
+	case logging.LogDiscard:
+		return "discard"
+	}
+	return fmt.Sprint(l)
 }
 
 // lineMeta says how a produced line came to be (by construction, in production order).
@@ -46,6 +69,7 @@ type lineMeta struct {
 	origin  string // "preamble" | "entry" | "service"
 	content string // class@pos of the entry, or origin
 	entry   *entrySpec
+	event   int // observed logs: index into spec.events of the step that wrote the line (else 0)
 }
 
 var scratchSeq int64
@@ -107,7 +131,8 @@ func produce(spec *logSpec, dir string) (data []byte, meta []lineMeta, err error
 	std := logrus.StandardLogger()
 	prevOut, prevFmt, prevLevel := std.Out, std.Formatter, std.GetLevel()
 	prevHooks := std.ReplaceHooks(make(logrus.LevelHooks))
-	std.AddHook(&logicalClock{now: spec.t0})
+	clock := &logicalClock{now: spec.t0}
+	std.AddHook(clock)
 	defer func() {
 		std.ReplaceHooks(prevHooks)
 		std.SetOutput(prevOut)
@@ -119,7 +144,22 @@ func produce(spec *logSpec, dir string) (data []byte, meta []lineMeta, err error
 	}()
 	path := filepath.Join(dir, "audit-"+spec.id+".log")
 	os.Remove(path)
-	logging.SetLogLevel(logging.LogDebug) // -d: every level is written
+	// the level is global state of the standard logger (and AuditLogHandler switches it while writing its service entries):
+	// set under prodMu, restored by the deferred call above. LogDebug (-d: every level is written) unless the history says otherwise
+	logging.SetLogLevel(spec.level)
+	spec.events = nil
+	size := func() int {
+		fi, err := os.Stat(path)
+		if err != nil {
+			return 0
+		}
+		return int(fi.Size())
+	}
+	mark := func(kind string, stepIdx int, from int) {
+		if spec.observe {
+			spec.events = append(spec.events, prodEvent{kind: kind, step: stepIdx, from: from, to: size()})
+		}
+	}
 
 	var closers []func()
 	boot := func() (*logging.AuditLogHandler, error) {
@@ -133,6 +173,8 @@ func produce(spec *logSpec, dir string) (data []byte, meta []lineMeta, err error
 		}
 		closers = append(closers, logFinalize)
 		logrus.SetOutput(writer)
+		from := size()
+		defer func() { mark("preamble", -1, from) }()
 		for i := 0; i < spec.preamble; i++ {
 			if i == 0 {
 				logrus.WithFields(logrus.Fields{"version": utils.VERSION}).Infof("Starting service %v [pid=%v]", "acra-server", 4242)
@@ -198,18 +240,30 @@ func produce(spec *logSpec, dir string) (data []byte, meta []lineMeta, err error
 	} else {
 		for i := range spec.steps {
 			st := &spec.steps[i]
+			from := 0
+			if spec.observe {
+				from = size()
+			}
+			if st.kind != "entry" && !st.t.IsZero() {
+				clock.mu.Lock()
+				clock.now = st.t
+				clock.mu.Unlock()
+			}
 			switch st.kind {
 			case "entry":
 				emit(&st.entry)
 				meta = append(meta, lineMeta{origin: "entry", content: st.entry.content.String(), entry: &st.entry})
+				mark("entry", i, from)
 			case "reset":
 				k := append([]byte{}, spec.key...)
 				h.ResetChain(k)
 				utils.ZeroizeSymmetricKey(k)
 				service()
+				mark("reset", i, from)
 			case "reboot":
 				h.FinalizeChain()
 				service()
+				mark("reboot", i, from)
 				if h, err = boot(); err != nil {
 					return nil, nil, err
 				}
@@ -217,10 +271,15 @@ func produce(spec *logSpec, dir string) (data []byte, meta []lineMeta, err error
 		}
 	}
 	if spec.finalize {
+		from := 0
+		if spec.observe {
+			from = size()
+		}
 		h.FinalizeChain()
 		if meta != nil {
 			service()
 		}
+		mark("finalize", len(spec.steps), from)
 	}
 	logrus.SetOutput(io.Discard)
 	for _, c := range closers {
@@ -228,5 +287,37 @@ func produce(spec *logSpec, dir string) (data []byte, meta []lineMeta, err error
 	}
 	data, err = os.ReadFile(path)
 	os.Remove(path)
+	if spec.observe && err == nil {
+		meta = metaFromEvents(spec, data)
+	}
 	return data, meta, err
+}
+
+// metaFromEvents: one lineMeta per line of the file, from the byte ranges the steps were observed to write.
+func metaFromEvents(spec *logSpec, data []byte) []lineMeta {
+	var meta []lineMeta
+	off := 0
+	for off < len(data) {
+		end := off
+		for end < len(data) && data[end] != '\n' {
+			end++
+		}
+		m := lineMeta{origin: "unknown", content: "unknown", event: -1}
+		for x, e := range spec.events {
+			if off >= e.from && off < e.to {
+				m.event = x
+				switch e.kind {
+				case "preamble":
+					m.origin, m.content = "preamble", "preamble"
+				case "entry":
+					m.origin, m.content, m.entry = "entry", spec.steps[e.step].entry.content.String(), &spec.steps[e.step].entry
+				default:
+					m.origin, m.content = "service", "service"
+				}
+			}
+		}
+		meta = append(meta, m)
+		off = end + 1
+	}
+	return meta
 }
